@@ -448,6 +448,12 @@ func (x *runner) run(sc scenario) {
 		vt.Fatal("unknown level %q", sc.Lvl)
 	}
 	x.tw.Emit(reset)
+	aborted := false
+	defer func() {
+		if !aborted {
+			x.tw.Emit(vt.Ev{"ev": "end"})
+		}
+	}()
 
 	sk := &sink{failFrom: sc.SinkFail, hexlog: toy}
 	var (
@@ -472,6 +478,7 @@ func (x *runner) run(sc scenario) {
 			if w == nil || wpos+o.N > len(pt) {
 				// the real code consumed more than the plan foresaw (reported at that Write): give up on this scenario
 				x.tw.Emit(vt.Ev{"ev": "abort", "why": "Write not executable"})
+				aborted = true
 				return
 			}
 			var n int
